@@ -5,6 +5,7 @@ orchestrator can compare them with what the real library did on the same input.
 Imports only Mctp.Model / Mctp.Spec (no Mathlib), so it links as a native executable.
 -/
 import Mctp.Model.Process
+import Mctp.Model.Ctors
 import Mctp.Spec.Judge
 open Mctp
 
@@ -413,6 +414,44 @@ def handle (st : St) (line : String) : St × String :=
     match parseBytes raw with
     | some r => (st, if bodyFromBufOk r then "ok" else "err")
     | _ => (st, "bad-op")
+  | ["new", "ctrl", rq, d, iid, cmd] =>
+    match parseBool rq, parseBool d, parseByte iid, parseByte cmd with
+    | some rq, some d, some iid, some cmd =>
+      -- the command is given by its numeric value; 0xFF is `Unknown`
+      if (Cmd.ofByte cmd).toByte = cmd then (st, hexBytes (ctrlHeaderNew rq d iid (Cmd.ofByte cmd))) else (st, "bad-op")
+    | _, _, _, _ => (st, "bad-op")
+  | ["new", "transport", v] =>
+    match parseByte v with
+    | some v => (st, hexBytes (transportHeaderNew v))
+    | none => (st, "bad-op")
+  | ["new", "body", ic, t] =>
+    match parseBool ic, parseType t with
+    | some ic, some t =>
+      match bodyHeaderNew ic t with
+      | .ok b => (st, hexBytes b)
+      | .err _ => (st, "bad-op")
+      | .panic p => (st, showPanic p)
+    | _, _ => (st, "bad-op")
+  | ["new", "routing", t, sz, f, ph] =>
+    match parseByte t, parseByte sz, parseByte f, parseByte ph with
+    | some t, some sz, some f, some ph => (st, hexBytes (routingEntryNew t sz f ph))
+    | _, _, _, _ => (st, "bad-op")
+  | ["new", "pci", v] =>
+    match parseHexNat v with
+    | some v => (st, hexBytes (pciFormatNew (BitVec.ofNat 16 v)))
+    | none => (st, "bad-op")
+  | ["new", "iana", v] =>
+    match parseHexNat v with
+    | some v => (st, hexBytes (ianaFormatNew (BitVec.ofNat 32 v)))
+    | none => (st, "bad-op")
+  | ["hdr", "smbus", id, dst] =>
+    match st.get id, parseByte dst with
+    | some c, some d => (st, hexBytes (smbusHeader c.model.address d))
+    | _, _ => (st, "bad-op")
+  | ["hdr", "transport", id, dst] =>
+    match st.get id, parseByte dst with
+    | some c, some d => (st, hexBytes (transportHeader c.model.address d))
+    | _, _ => (st, "bad-op")
   | ["conv", "cmd", b] =>
     match parseByte b with
     | some b => (st, hexByte (Cmd.ofByte b).toByte)
